@@ -29,7 +29,7 @@ func lockAtoms() AtomDef {
 		case "sync.Mutex.Lock", "sync.RWMutex.Lock":
 			return []Atom{"held:" + canonAddr(args[0])}, nil
 		case "sync.Mutex.Unlock", "sync.RWMutex.Unlock":
-			return nil, []Atom{"held:" + canonAddr(args[0])}
+			return nil, []Atom{"held:" + canonAddr(args[0]), "~" + canonAddr(args[0])}
 		}
 		return nil, nil
 	}}
@@ -186,7 +186,67 @@ func checkC19(c *Ctx, p *Prog, r *Result) {
 	}
 	r.rule("C19.guarded-by", "every access to bufPipe.buf / bufPipe.err happens with bufPipe's mutex held; UnchunkWriter.readers is closed only under readerMu and UnchunkWriter.closing only under closeMu (one reviewed exception)")
 	r.floor("C19.guarded-by", 8)
-	rs := &RuleSet{Atoms: []AtomDef{lockAtoms()}}
+	// a channel that is closed under a mutex after a close indicator fired may
+	// be sent on only under that mutex and after the indicator was seen open
+	// (non-blocking receive took the default branch) under the same lock
+	indicators := map[string]string{
+		"fdo/serviceinfo.UnchunkWriter.readers": "fdo/serviceinfo.UnchunkWriter.closing",
+	}
+	r.rule("C19.no-send-on-closed", "UnchunkWriter.readers is closed under readerMu only after the closing indicator was closed; every send on it happens under readerMu after a non-blocking receive on the indicator took its default branch under the same lock (so the channel cannot have been closed) or is made by the unique closer itself, and every close of it follows the close of the indicator")
+	r.floor("C19.no-send-on-closed", 3)
+	openAtom := AtomDef{Name: "indicator-open", EdgeDyn: func(m *Matcher, pd Pred, holds bool) []Atom {
+		if pd.Kind != "eq" || holds {
+			return nil
+		}
+		var out []Atom
+		for _, pr := range [][2]ssa.Value{{pd.X, pd.Y}, {pd.Y, pd.X}} {
+			ex, ok := pr[0].(*ssa.Extract)
+			if !ok || ex.Index != 0 {
+				continue
+			}
+			sel, ok := ex.Tuple.(*ssa.Select)
+			if !ok || sel.Blocking {
+				continue
+			}
+			k, ok := constInt(pr[1])
+			if !ok || int(k) >= len(sel.States) || k < 0 {
+				continue
+			}
+			stt := sel.States[k]
+			if stt.Dir != types.RecvOnly {
+				continue
+			}
+			fa, ok := loadOf(stt.Chan).(*ssa.FieldAddr)
+			if !ok {
+				continue
+			}
+			ind := fieldName(fa.X.Type(), fa.Field)
+			for ch, i := range indicators {
+				if i == ind {
+					mu := canonAddr(fa.X) + ".f" + itoa(fieldIndex(fa.X.Type(), closes[ch]))
+					out = append(out, Atom("v:open:"+mu))
+				}
+			}
+		}
+		return out
+	}}
+	indClosed := AtomDef{Name: "indicator-closed", Doc: "the close indicator was closed", Exec: func(m *Matcher, call ssa.CallInstruction) bool {
+		bi, ok := call.Common().Value.(*ssa.Builtin)
+		if !ok || bi.Name() != "close" {
+			return false
+		}
+		fa, ok := loadOf(call.Common().Args[0]).(*ssa.FieldAddr)
+		if !ok {
+			return false
+		}
+		for _, i := range indicators {
+			if i == fieldName(fa.X.Type(), fa.Field) {
+				return true
+			}
+		}
+		return false
+	}}
+	rs := &RuleSet{Atoms: []AtomDef{lockAtoms(), openAtom, indClosed}}
 	for _, fn := range p.Funcs {
 		if funcPkgPath(fn) != modulePath+"/serviceinfo" {
 			continue
@@ -226,6 +286,41 @@ func checkC19(c *Ctx, p *Prog, r *Result) {
 						}
 					}
 				}
+				// sends on a closable channel
+				var sendChans []ssa.Value
+				switch x := in.(type) {
+				case *ssa.Select:
+					for _, stt := range x.States {
+						if stt.Dir == types.SendOnly {
+							sendChans = append(sendChans, stt.Chan)
+						}
+					}
+				case *ssa.Send:
+					sendChans = append(sendChans, x.Chan)
+				}
+				for _, ch := range sendChans {
+					fa, ok := loadOf(ch).(*ssa.FieldAddr)
+					if !ok {
+						continue
+					}
+					fld := fieldName(fa.X.Type(), fa.Field)
+					if _, has := indicators[fld]; !has {
+						continue
+					}
+					k++
+					mu := canonAddr(fa.X) + ".f" + itoa(fieldIndex(fa.X.Type(), closes[fld]))
+					st := flow().StateAt(in)
+					okv := st.Has(Atom("held:"+mu)) && st.Has(Atom("v:open:"+mu))
+					if !okv && st.Has("indicator-closed") {
+						// this call closed the indicator itself, i.e. it won the
+						// close-once election and is the only one that will ever
+						// close the channel
+						r.table(p, "C19.no-send-on-closed", fmt.Sprintf("send #%d on %s in %s", k, fld, p.FuncName(fn)), p.instrPos(in), true, "the sender is the unique closer (it closed the indicator itself on every path to here)")
+						continue
+					}
+					r.table(p, "C19.no-send-on-closed", fmt.Sprintf("send #%d on %s in %s", k, fld, p.FuncName(fn)), p.instrPos(in), okv,
+						fmt.Sprintf("requires held:%s (have %v) and the indicator seen open under that lock (have %v)", mu, st.Has(Atom("held:"+mu)), st.Has(Atom("v:open:"+mu))))
+				}
 				// channel closes
 				if call, ok := in.(*ssa.Call); ok {
 					if bi, isB := call.Call.Value.(*ssa.Builtin); isB && bi.Name() == "close" {
@@ -242,6 +337,9 @@ func checkC19(c *Ctx, p *Prog, r *Result) {
 						k++
 						mu := "held:" + canonAddr(fa.X) + ".f" + itoa(fieldIndex(fa.X.Type(), muField))
 						r.table(p, "C19.guarded-by", fmt.Sprintf("close #%d of %s in %s", k, fld, p.FuncName(fn)), p.instrPos(in), flow().StateAt(call).Has(mu), "requires "+mu)
+						if _, has := indicators[fld]; has {
+							r.table(p, "C19.no-send-on-closed", fmt.Sprintf("close #%d of %s in %s", k, fld, p.FuncName(fn)), p.instrPos(in), flow().StateAt(call).Has("indicator-closed"), "the indicator channel is closed before this channel on every path")
+						}
 					}
 				}
 			}
